@@ -239,6 +239,43 @@ def nontrivial_plain(line):
     return over and "l" in toks
 
 
+def cli_failed_command_probe(chk):
+    """`xvc file track d/a.txt` where d/.gitignore is a directory: the stores are saved, then the command fails;
+    the next command allocates again.  With the random word pinned (hook H3) equal counters are equal entities."""
+    import json
+    from .xvc import XvcRepo
+    xvc = C.ensure_xvc()
+    n = 0
+    for variant in ("gitignore-is-a-directory", "second-target-missing"):
+        with XvcRepo(xvc, prefix="c08cli", git=False, init=False) as rp:
+            rp.env["XVC_VERIF_RANDOM"] = "4242"
+            if rp.xvc("init", "--no-git").failed:
+                continue
+            rp.write("d/a.txt", b"a\n"); rp.write("b.txt", b"b\n"); rp.write("c.txt", b"c\n")
+            if variant == "gitignore-is-a-directory":
+                os.makedirs(rp.path("d", ".gitignore"))
+                r1 = rp.xvc("--skip-git", "file", "track", "d/a.txt")
+                os.rmdir(rp.path("d", ".gitignore"))
+            else:
+                r1 = rp.xvc("--skip-git", "file", "track", "d/a.txt")
+                r1 = rp.xvc("--skip-git", "file", "copy", "d/a.txt", "d/")           # fails: source and destination are the same
+            r2 = rp.xvc("--skip-git", "file", "track", "b.txt", "c.txt")
+            ents = {}
+            sd = rp.path(".xvc", "store", "xvc-path-store")
+            for fn in sorted(os.listdir(sd)) if os.path.isdir(sd) else []:
+                for ev in json.load(open(os.path.join(sd, fn))):
+                    if "Add" in ev:
+                        ents.setdefault(tuple(ev["Add"]["entity"]), set()).add(ev["Add"]["value"])
+            n += 1
+            chk.count(("cli-failed-command", variant), True)
+            clash = {e: sorted(v) for e, v in ents.items() if len(v) > 1}
+            if clash and not r2.failed:
+                chk.fail("oracle", "an entity was handed out twice by consecutive commands (the first one failed after saving its stores): %r" % clash,
+                         {"input": {"kind": "cli-failed-command", "variant": variant}, "entities": {str(k): sorted(v) for k, v in ents.items()},
+                          "first_command_failed": bool(r1.failed)}, name="clifail")
+    return n
+
+
 def run(chk, replay=None):
     tier, rng = chk.tier, chk.rng
     chk.cov["trusted_base"] = TRUSTED
@@ -335,6 +372,9 @@ def run(chk, replay=None):
                          {"input": case, "observed": line, "expected": want, "kind": "impl-history",
                           "theorem_or_correspondence": "entities_fresh_linear (next_element atomic)"}, name="genpar", has_input=dup)
         kinds["genpar"] = npar
+        # the counter across COMMANDS of the binary, one of which fails after it saved stores: the entities the failed
+        # command used must not be handed out by the next command (XvcRoot saves the counter when it is dropped)
+        kinds["cli_failed_command"] = cli_failed_command_probe(chk)
 
     # shrink and report (at most 3 distinct reports)
     reported = 0
